@@ -29,4 +29,9 @@ def swapHandle : Op → Op
   | .read .B n => .read .T n
   | op => op
 
+/-- on a generic transport Close is a no-op -/
+def closeToNoop : Op → Op
+  | .close => .noop
+  | op => op
+
 end Verif.Apx
